@@ -157,6 +157,11 @@ package apd
 //@   pure
 //@   ensures ret == mod(abs(val(z)), 18446744073709551616)
 
+//@ func (*BigInt).Rsh
+//@   trusted layer-1 contract
+//@   assigns z
+//@   ensures (old(val(x)) >= 0 ==> val(z) == div(old(val(x)), pow2(n))) && ret == z
+
 //@ func (*BigInt).Exp
 //@   trusted assumed math/big contract, base-10 instance only
 //@   nilable m
@@ -427,9 +432,13 @@ package apd
 //@   hint pow10_add(c.Precision - 1, nd10(val(x.Coeff)) - c.Precision)
 //@   hint div_lt(val(x.Coeff), pow10(nd10(val(x.Coeff)) - c.Precision), pow10(c.Precision))
 //@   hint div_ge(val(x.Coeff), pow10(nd10(val(x.Coeff)) - c.Precision), pow10(c.Precision - 1))
+//@   hint pow10_add(c.Precision - 1, etiny(c) - x.Exponent)
+//@   hint div_lt(val(x.Coeff), pow10(etiny(c) - x.Exponent), pow10(c.Precision - 1))
 //@   ensures [inv] inv(d) && closed(ret)
 //@   ensures [esys] (disableIfPrecisionZero || c.Precision != 0) && (old(x.Exponent) < -100000 || old(x.Exponent) > 100000) ==> hassys(ret)
 //@   ensures [infovf] old(finwfI(c, x)) && old(x.Exponent) + nd10(old(val(x.Coeff))) - 1 > c.MaxExponent ==> hassys(ret) || (d.Form == Infinite && d.Negative == old(x.Negative) && only(ret, Rounded | Inexact | Overflow | Clamped))
+//@   ensures [fits] old(finwf(c, x)) && r == c.Rounding && !hassys(ret) ==> fits(c, d)
+//@   ensures [formkeep] d.Form == Finite ==> old(x.Form) == Finite
 //@   ensures [zero] old(finwf(c, x)) && r == c.Rounding && old(val(x.Coeff)) == 0 ==> RZero(c, old(x.Negative), old(x.Exponent), d, ret)
 //@   ensures [sub] old(finwf(c, x)) && r == c.Rounding && old(val(x.Coeff)) != 0 && old(x.Exponent) + nd10(old(val(x.Coeff))) - 1 < c.MinExponent ==> RSub(c, old(x.Negative), old(val(x.Coeff)), old(x.Exponent), d, ret)
 //@   ensures [sys] old(finwf(c, x)) && r == c.Rounding && old(val(x.Coeff)) != 0 && old(x.Exponent) + nd10(old(val(x.Coeff))) - 1 >= c.MinExponent ==> (has(ret, SystemOverflow) <==> NSYS(c, old(x.Negative), old(val(x.Coeff)), old(x.Exponent))) && !has(ret, SystemUnderflow)
@@ -466,8 +475,9 @@ package apd
 //@ func (*Context).setAsNaN
 //@   props C08 C03 C05 C06
 //@   nilable y
-//@   requires writable(d) && (isnan(x) || (y != nil && isnan(y)))
+//@   requires writable(d) && (isnan(x) || (y != nil && isnan(y))) && inv(x) && (y != nil ==> inv(y))
 //@   assigns d
+//@   ensures [invkeep] old(inv(d)) ==> inv(d)
 //@   ensures [value] d.Form == NaN && d.Negative == old(nanpick(x, y).Negative) && d.Exponent == old(nanpick(x, y).Exponent) && val(d.Coeff) == old(val(nanpick(x, y).Coeff))
 //@   ensures [flags] ret0 == flag(old(nanpick(x, y).Form) == NaNSignaling, InvalidOperation)
 //@   ensures [trap] ret1 != nil <==> trapped(c, ret0)
@@ -479,6 +489,7 @@ package apd
 //@   assigns d
 //@   ensures [inv] inv(d) && closed(ret)
 //@   ensures [rounded] wfctx(c) && old(x.Form) == Finite ==> Rounded(c, old(x.Negative), old(val(x.Coeff)), old(x.Exponent), d, ret)
+//@   ensures [fits] wfctx(c) && !hassys(ret) ==> fits(c, d)
 //@   ensures [sysiff] wfctx(c) && old(x.Form) == Finite ==> SysIff(c, old(x.Negative), old(val(x.Coeff)), old(x.Exponent), ret)
 //@   ensures [esys] old(x.Exponent) < -100000 || old(x.Exponent) > 100000 ==> hassys(ret)
 //@   ensures [infovf] old(finwfI(c, x)) && old(x.Exponent) + nd10(old(val(x.Coeff))) - 1 > c.MaxExponent ==> hassys(ret) || (d.Form == Infinite && d.Negative == old(x.Negative) && only(ret, Rounded | Inexact | Overflow | Clamped))
@@ -500,6 +511,7 @@ package apd
 //@   exported
 //@   requires writable(d) && inv(x)
 //@   assigns d
+//@   ensures [invkeep] old(inv(d)) ==> inv(d)
 //@   ensures [closed] closed(ret0) && inv(d)
 //@   ensures [trap] ret1 != nil <==> trapped(c, ret0)
 //@   ensures [rounded] wfctx(c) && old(x.Form) == Finite ==> Rounded(c, old(x.Negative), old(val(x.Coeff)), old(x.Exponent), d, ret0)
@@ -518,7 +530,10 @@ package apd
 //@   props C01 C02 C03 C05 C06 C07 C08 C20
 //@   requires writable(d) && inv(x) && inv(y)
 //@   assigns d
+//@   ensures [invkeep] old(inv(d)) ==> inv(d)
 //@   ensures [closed] closed(ret0)
+//@   ensures [inv] !old(bothfin(x, y) && gap(x, y)) ==> inv(d)
+//@   ensures [gap] old(bothfin(x, y) && gap(x, y)) ==> unchanged(d) && ret0 == 0
 //@   ensures [trap] ret1 != nil <==> (trapped(c, ret0) || old(bothfin(x, y) && gap(x, y)))
 //@   ensures [nan] NaN2(x, y, d, ret0)
 //@   ensures [infinv] old(!isnan(x) && !isnan(y) && x.Form == Infinite && y.Form == Infinite && x.Negative != (y.Negative != subtract)) ==> (d.Form == NaN && ret0 == InvalidOperation)
@@ -530,7 +545,10 @@ package apd
 //@   exported
 //@   requires writable(d) && inv(x) && inv(y)
 //@   assigns d
+//@   ensures [invkeep] old(inv(d)) ==> inv(d)
 //@   ensures [closed] closed(ret0)
+//@   ensures [inv] !old(bothfin(x, y) && gap(x, y)) ==> inv(d)
+//@   ensures [gap] old(bothfin(x, y) && gap(x, y)) ==> unchanged(d) && ret0 == 0
 //@   ensures [trap] ret1 != nil <==> (trapped(c, ret0) || old(bothfin(x, y) && gap(x, y)))
 //@   ensures [nan] NaN2(x, y, d, ret0)
 //@   ensures [infinv] old(!isnan(x) && !isnan(y) && x.Form == Infinite && y.Form == Infinite && x.Negative != y.Negative) ==> (d.Form == NaN && ret0 == InvalidOperation)
@@ -542,7 +560,10 @@ package apd
 //@   exported
 //@   requires writable(d) && inv(x) && inv(y)
 //@   assigns d
+//@   ensures [invkeep] old(inv(d)) ==> inv(d)
 //@   ensures [closed] closed(ret0)
+//@   ensures [inv] !old(bothfin(x, y) && gap(x, y)) ==> inv(d)
+//@   ensures [gap] old(bothfin(x, y) && gap(x, y)) ==> unchanged(d) && ret0 == 0
 //@   ensures [trap] ret1 != nil <==> (trapped(c, ret0) || old(bothfin(x, y) && gap(x, y)))
 //@   ensures [nan] NaN2(x, y, d, ret0)
 //@   ensures [infinv] old(!isnan(x) && !isnan(y) && x.Form == Infinite && y.Form == Infinite && x.Negative == y.Negative) ==> (d.Form == NaN && ret0 == InvalidOperation)
@@ -554,6 +575,7 @@ package apd
 //@   exported
 //@   requires writable(d) && inv(x)
 //@   assigns d
+//@   ensures [invkeep] old(inv(d)) ==> inv(d)
 //@   ensures [closed] closed(ret0) && inv(d)
 //@   ensures [trap] ret1 != nil <==> trapped(c, ret0)
 //@   ensures [rounded] wfctx(c) && old(x.Form) == Finite ==> Rounded(c, false, old(val(x.Coeff)), old(x.Exponent), d, ret0)
@@ -565,6 +587,7 @@ package apd
 //@   exported
 //@   requires writable(d) && inv(x)
 //@   assigns d
+//@   ensures [invkeep] old(inv(d)) ==> inv(d)
 //@   ensures [closed] closed(ret0) && inv(d)
 //@   ensures [trap] ret1 != nil <==> trapped(c, ret0)
 //@   ensures [rounded] wfctx(c) && old(x.Form) == Finite ==> Rounded(c, old(ite(val(x.Coeff) == 0, false, !x.Negative)), old(val(x.Coeff)), old(x.Exponent), d, ret0)
@@ -577,6 +600,7 @@ package apd
 //@   exported
 //@   requires writable(d) && inv(x) && inv(y)
 //@   assigns d
+//@   ensures [invkeep] old(inv(d)) ==> inv(d)
 //@   ensures [closed] closed(ret0)
 //@   ensures [trap] ret1 != nil <==> trapped(c, ret0)
 //@   ensures [nan] NaN2(x, y, d, ret0)
@@ -598,6 +622,7 @@ package apd
 //@   props C01 C02 C03 C08 C10
 //@   requires writable(d) && inv(x) && inv(y)
 //@   assigns d
+//@   ensures [invkeep] old(inv(d)) ==> inv(d)
 //@   ensures [closed] closed(ret1)
 //@   ensures [set] ret0 <==> (old(divspecial(x, y)) || c.Precision == 0)
 //@   ensures [trap] ret2 != nil <==> (trapped(c, ret1) || (!old(divspecial(x, y)) && c.Precision == 0))
@@ -635,6 +660,7 @@ package apd
 //@   reveal RoundedQNS RoundedNS
 //@   requires writable(d) && inv(x) && inv(y)
 //@   assigns d
+//@   ensures [invkeep] old(inv(d)) ==> inv(d)
 //@   ensures [closed] closed(ret0)
 //@   ensures [trap] ret1 != nil <==> (trapped(c, ret0) || (!old(divspecial(x, y)) && c.Precision == 0))
 //@   ensures [nan] NaN2(x, y, d, ret0)
@@ -717,6 +743,7 @@ package apd
 //@   exported
 //@   requires writable(d) && inv(x) && inv(y)
 //@   assigns d
+//@   ensures [invkeep] old(inv(d)) ==> inv(d)
 //@   ensures [closed] closed(ret0)
 //@   ensures [trap] ret1 != nil <==> (trapped(c, ret0) || (!old(divspecial(x, y)) && (c.Precision == 0 || old(gap(x, y)))))
 //@   ensures [nan] NaN2(x, y, d, ret0)
@@ -733,6 +760,7 @@ package apd
 //@   exported
 //@   requires writable(d) && inv(x) && inv(y)
 //@   assigns d
+//@   ensures [invkeep] old(inv(d)) ==> inv(d)
 //@   ensures [closed] closed(ret0)
 //@   ensures [trap] ret1 != nil <==> (trapped(c, ret0) || old(bothfin(x, y) && !iszero(y) && gap(x, y)))
 //@   ensures [nan] NaN2(x, y, d, ret0)
@@ -791,6 +819,7 @@ package apd
 //@   exported
 //@   requires writable(d) && inv(x) && inv(y)
 //@   assigns d
+//@   ensures [invkeep] old(inv(d)) ==> inv(d)
 //@   ensures [nan] NaN2(x, y, d, ret0)
 //@   ensures [trap] ret1 != nil <==> trapped(c, ret0)
 //@   ensures [value] old(!isnan(x) && !isnan(y)) ==> (d.Form == Finite && d.Exponent == 0 && val(d.Coeff) == abs(old(cmpsigned(x, y))) && d.Negative == (old(cmpsigned(x, y)) < 0) && ret0 == 0)
@@ -830,119 +859,264 @@ package apd
 //@   props C03
 //@   requires writable(e) && writable(d) && e.Ctx != nil && closed(e.Flags) && inv(x) && inv(y)
 //@   assigns e.Flags, e.err, d
+//@   ensures [invkeep] (old(inv(d)) ==> inv(d)) && closed(e.Flags) && e.Ctx == old(e.Ctx)
 //@   delegates (*Context).Add(e.Ctx, d, x, y)
 //@   ensures ret == d
 //@ func (*ErrDecimal).Mul
 //@   props C03
 //@   requires writable(e) && writable(d) && e.Ctx != nil && closed(e.Flags) && inv(x) && inv(y)
 //@   assigns e.Flags, e.err, d
+//@   ensures [invkeep] (old(inv(d)) ==> inv(d)) && closed(e.Flags) && e.Ctx == old(e.Ctx)
 //@   delegates (*Context).Mul(e.Ctx, d, x, y)
 //@   ensures ret == d
 //@ func (*ErrDecimal).Quo
 //@   props C03
 //@   requires writable(e) && writable(d) && e.Ctx != nil && closed(e.Flags) && inv(x) && inv(y)
 //@   assigns e.Flags, e.err, d
+//@   ensures [invkeep] (old(inv(d)) ==> inv(d)) && closed(e.Flags) && e.Ctx == old(e.Ctx)
 //@   delegates (*Context).Quo(e.Ctx, d, x, y)
 //@   ensures ret == d
 //@ func (*ErrDecimal).QuoInteger
 //@   props C03
 //@   requires writable(e) && writable(d) && e.Ctx != nil && closed(e.Flags) && inv(x) && inv(y)
 //@   assigns e.Flags, e.err, d
+//@   ensures [invkeep] (old(inv(d)) ==> inv(d)) && closed(e.Flags) && e.Ctx == old(e.Ctx)
 //@   delegates (*Context).QuoInteger(e.Ctx, d, x, y)
 //@   ensures ret == d
 //@ func (*ErrDecimal).Rem
 //@   props C03
 //@   requires writable(e) && writable(d) && e.Ctx != nil && closed(e.Flags) && inv(x) && inv(y)
 //@   assigns e.Flags, e.err, d
+//@   ensures [invkeep] (old(inv(d)) ==> inv(d)) && closed(e.Flags) && e.Ctx == old(e.Ctx)
 //@   delegates (*Context).Rem(e.Ctx, d, x, y)
 //@   ensures ret == d
 //@ func (*ErrDecimal).Sub
 //@   props C03
 //@   requires writable(e) && writable(d) && e.Ctx != nil && closed(e.Flags) && inv(x) && inv(y)
 //@   assigns e.Flags, e.err, d
+//@   ensures [invkeep] (old(inv(d)) ==> inv(d)) && closed(e.Flags) && e.Ctx == old(e.Ctx)
 //@   delegates (*Context).Sub(e.Ctx, d, x, y)
 //@   ensures ret == d
 //@ func (*ErrDecimal).Pow
 //@   props C03
 //@   requires writable(e) && writable(d) && e.Ctx != nil && closed(e.Flags) && inv(x) && inv(y)
 //@   assigns e.Flags, e.err, d
+//@   ensures [invkeep] (old(inv(d)) ==> inv(d)) && closed(e.Flags) && e.Ctx == old(e.Ctx)
 //@   delegates (*Context).Pow(e.Ctx, d, x, y)
 //@   ensures ret == d
 //@ func (*ErrDecimal).Abs
 //@   props C03
 //@   requires writable(e) && writable(d) && e.Ctx != nil && closed(e.Flags) && inv(x)
 //@   assigns e.Flags, e.err, d
+//@   ensures [invkeep] (old(inv(d)) ==> inv(d)) && closed(e.Flags) && e.Ctx == old(e.Ctx)
 //@   delegates (*Context).Abs(e.Ctx, d, x)
 //@   ensures ret == d
 //@ func (*ErrDecimal).Ceil
 //@   props C03
 //@   requires writable(e) && writable(d) && e.Ctx != nil && closed(e.Flags) && inv(x)
 //@   assigns e.Flags, e.err, d
+//@   ensures [invkeep] (old(inv(d)) ==> inv(d)) && closed(e.Flags) && e.Ctx == old(e.Ctx)
 //@   delegates (*Context).Ceil(e.Ctx, d, x)
 //@   ensures ret == d
 //@ func (*ErrDecimal).Exp
 //@   props C03
 //@   requires writable(e) && writable(d) && e.Ctx != nil && closed(e.Flags) && inv(x)
 //@   assigns e.Flags, e.err, d
+//@   ensures [invkeep] (old(inv(d)) ==> inv(d)) && closed(e.Flags) && e.Ctx == old(e.Ctx)
 //@   delegates (*Context).Exp(e.Ctx, d, x)
 //@   ensures ret == d
 //@ func (*ErrDecimal).Floor
 //@   props C03
 //@   requires writable(e) && writable(d) && e.Ctx != nil && closed(e.Flags) && inv(x)
 //@   assigns e.Flags, e.err, d
+//@   ensures [invkeep] (old(inv(d)) ==> inv(d)) && closed(e.Flags) && e.Ctx == old(e.Ctx)
 //@   delegates (*Context).Floor(e.Ctx, d, x)
 //@   ensures ret == d
 //@ func (*ErrDecimal).Ln
 //@   props C03
 //@   requires writable(e) && writable(d) && e.Ctx != nil && closed(e.Flags) && inv(x)
 //@   assigns e.Flags, e.err, d
+//@   ensures [invkeep] (old(inv(d)) ==> inv(d)) && closed(e.Flags) && e.Ctx == old(e.Ctx)
 //@   delegates (*Context).Ln(e.Ctx, d, x)
 //@   ensures ret == d
 //@ func (*ErrDecimal).Log10
 //@   props C03
 //@   requires writable(e) && writable(d) && e.Ctx != nil && closed(e.Flags) && inv(x)
 //@   assigns e.Flags, e.err, d
+//@   ensures [invkeep] (old(inv(d)) ==> inv(d)) && closed(e.Flags) && e.Ctx == old(e.Ctx)
 //@   delegates (*Context).Log10(e.Ctx, d, x)
 //@   ensures ret == d
 //@ func (*ErrDecimal).Neg
 //@   props C03
 //@   requires writable(e) && writable(d) && e.Ctx != nil && closed(e.Flags) && inv(x)
 //@   assigns e.Flags, e.err, d
+//@   ensures [invkeep] (old(inv(d)) ==> inv(d)) && closed(e.Flags) && e.Ctx == old(e.Ctx)
 //@   delegates (*Context).Neg(e.Ctx, d, x)
 //@   ensures ret == d
 //@ func (*ErrDecimal).Round
 //@   props C03
 //@   requires writable(e) && writable(d) && e.Ctx != nil && closed(e.Flags) && inv(x)
 //@   assigns e.Flags, e.err, d
+//@   ensures [invkeep] (old(inv(d)) ==> inv(d)) && closed(e.Flags) && e.Ctx == old(e.Ctx)
 //@   delegates (*Context).Round(e.Ctx, d, x)
 //@   ensures ret == d
 //@ func (*ErrDecimal).Sqrt
 //@   props C03
 //@   requires writable(e) && writable(d) && e.Ctx != nil && closed(e.Flags) && inv(x)
 //@   assigns e.Flags, e.err, d
+//@   ensures [invkeep] (old(inv(d)) ==> inv(d)) && closed(e.Flags) && e.Ctx == old(e.Ctx)
 //@   delegates (*Context).Sqrt(e.Ctx, d, x)
 //@   ensures ret == d
 //@ func (*ErrDecimal).RoundToIntegralValue
 //@   props C03
 //@   requires writable(e) && writable(d) && e.Ctx != nil && closed(e.Flags) && inv(x)
 //@   assigns e.Flags, e.err, d
+//@   ensures [invkeep] (old(inv(d)) ==> inv(d)) && closed(e.Flags) && e.Ctx == old(e.Ctx)
 //@   delegates (*Context).RoundToIntegralValue(e.Ctx, d, x)
 //@   ensures ret == d
 //@ func (*ErrDecimal).RoundToIntegralExact
 //@   props C03
 //@   requires writable(e) && writable(d) && e.Ctx != nil && closed(e.Flags) && inv(x)
 //@   assigns e.Flags, e.err, d
+//@   ensures [invkeep] (old(inv(d)) ==> inv(d)) && closed(e.Flags) && e.Ctx == old(e.Ctx)
 //@   delegates (*Context).RoundToIntegralExact(e.Ctx, d, x)
 //@   ensures ret == d
 //@ func (*ErrDecimal).Quantize
 //@   props C03
 //@   requires writable(e) && writable(d) && e.Ctx != nil && closed(e.Flags) && inv(v)
 //@   assigns e.Flags, e.err, d
+//@   ensures [invkeep] (old(inv(d)) ==> inv(d)) && closed(e.Flags) && e.Ctx == old(e.Ctx)
 //@   delegates (*Context).Quantize(e.Ctx, d, v, exp)
 //@   ensures ret == d
 //@ func (*ErrDecimal).Reduce
 //@   props C03
 //@   requires writable(e) && writable(d) && e.Ctx != nil && closed(e.Flags) && inv(x)
 //@   assigns e.Flags, e.err, d
+//@   ensures [invkeep] (old(inv(d)) ==> inv(d)) && closed(e.Flags) && e.Ctx == old(e.Ctx)
 //@   delegates (*Context).Reduce(e.Ctx, d, x)
 //@   ensures ret1 == d
+
+// ---------------------------------------------------------------- helpers of the composite functions
+
+//@ define fits(c: *Context, d: *Decimal): bool = d.Form == Finite ==> (val(d.Coeff) >= 0 && val(d.Coeff) < pow10(c.Precision) && d.Exponent + nd10(val(d.Coeff)) - 1 <= c.MaxExponent && (val(d.Coeff) != 0 ==> d.Exponent >= etiny(c)))
+
+//@ func (*Decimal).String
+//@   trusted text only: builds a string from the fields of d (format.go is outside the subset)
+//@   pure
+
+//@ func (*Decimal).Float64
+//@   trusted strconv.ParseFloat of the text form; the float result is never interpreted by the verifier
+//@   pure
+
+//@ func (*Decimal).SetFloat64
+//@   trusted goes through strconv and the parser (outside the subset): assumed to write only d and to leave a well-formed value
+//@   requires writable(d)
+//@   assigns d
+//@   ensures ret0 == d && (ret1 == nil ==> inv(d))
+
+//@ func MakeErrDecimal
+//@   props C03
+//@   pure
+//@   ensures ret.Ctx == c && ret.err == nil && ret.Flags == 0
+
+//@ func exp10
+//@   props C04 C06
+//@   requires writable(tmp) && x >= 0
+//@   assigns tmp
+//@   ensures ret1 != nil <==> (x > 100000 || x < -100000)
+//@   ensures ret1 == nil && x >= 0 ==> (val(ret0) == pow10(x) && ret0 != nil && (ret0 == tmp || isglobal(ret0)))
+
+//@ global decimalLn10: inv(decimalLn10.unrounded) && len(decimalLn10.vals) >= 0 && len(decimalLn10.vals) <= 64 && (forall k in 0..63: k < len(decimalLn10.vals) ==> inv(decimalLn10.vals[k]))
+//@ global decimalInvLn10: inv(decimalInvLn10.unrounded) && len(decimalInvLn10.vals) >= 0 && len(decimalInvLn10.vals) <= 64 && (forall k in 0..63: k < len(decimalInvLn10.vals) ==> inv(decimalInvLn10.vals[k]))
+//@ global decimalTwo: decimalTwo.Form == Finite && !decimalTwo.Negative && decimalTwo.Exponent == 0 && val(decimalTwo.Coeff) == 2
+//@ global decimalThree: decimalThree.Form == Finite && !decimalThree.Negative && decimalThree.Exponent == 0 && val(decimalThree.Coeff) == 3
+//@ global decimalEight: decimalEight.Form == Finite && !decimalEight.Negative && decimalEight.Exponent == 0 && val(decimalEight.Coeff) == 8
+//@ global decimalOneEighth: decimalOneEighth.Form == Finite && !decimalOneEighth.Negative && decimalOneEighth.Exponent == -3 && val(decimalOneEighth.Coeff) == 125
+//@ global decimalMaxInt64: decimalMaxInt64.Form == Finite && !decimalMaxInt64.Negative && decimalMaxInt64.Exponent == 0 && val(decimalMaxInt64.Coeff) == 9223372036854775807
+//@ global decimalMinInt64: decimalMinInt64.Form == Finite && decimalMinInt64.Negative && decimalMinInt64.Exponent == 0 && val(decimalMinInt64.Coeff) == 9223372036854775808
+//@ global decimalCbrtC1: inv(decimalCbrtC1)
+//@ global decimalCbrtC2: inv(decimalCbrtC2)
+//@ global decimalCbrtC3: inv(decimalCbrtC3)
+//@ global BaseContext: BaseContext.Precision == 0 && BaseContext.MaxExponent == 100000 && BaseContext.MinExponent == -100000 && BaseContext.Traps == DefaultTraps && BaseContext.Rounding == 0
+
+//@ func (*constWithPrecision).get
+//@   props C04 C06 C18
+//@   requires inv(c.unrounded) && len(c.vals) <= 64 && (forall k in 0..63: k < len(c.vals) ==> inv(c.vals[k]))
+//@   pure
+//@   loop 1 invariant i >= 0 && i + 4 * precision <= 17179869185
+//@   loop 1 decreases precision
+//@   loop 2 invariant i >= 0 && i + 4 * precision <= 17179869185
+//@   loop 2 decreases precision
+//@   ensures ret != nil && inv(ret)
+
+//@ func (*Context).newLoop
+//@   props C04 C06
+//@   requires inv(arg)
+//@   fresh
+//@   assigns nothing
+//@   ensures ret != nil && writable(ret) && ret.c == c && ret.i == 0 && ret.arg != nil && inv(ret.prevZ) && inv(ret.delta)
+
+//@ func (*loop).done
+//@   props C04 C06
+//@   requires writable(l) && l.c != nil && l.arg != nil && inv(z) && inv(l.prevZ) && inv(l.delta) && z != l.prevZ && z != l.delta
+//@   assigns l.delta, l.prevZ, l.i
+//@   ensures inv(l.prevZ) && inv(l.delta) && l.c == old(l.c) && l.arg == old(l.arg) && l.maxIterations == old(l.maxIterations)
+//@   ensures !ret0 && ret1 == nil ==> (l.i == wrap64u(old(l.i) + 1) && l.i != l.maxIterations)
+
+// ---------------------------------------------------------------- composite functions: safety, frame, traps, specials, fits (C03 C04 C05 C06 C07 C08 C18)
+
+//@ define edclean(ed: *ErrDecimal): bool = ed.err == nil && (ed.Ctx != nil ==> !trapped(ed.Ctx, ed.Flags))
+
+//@ func (*Context).rootSpecials
+//@   props C03 C04 C06 C08
+//@   requires writable(d) && inv(x) && (factor == 2 || factor == 3)
+//@   assigns d
+//@   ensures [invkeep] old(inv(d)) ==> inv(d)
+//@   ensures [closed] closed(ret1)
+//@   ensures [trap] ret2 != nil <==> trapped(c, ret1)
+//@   ensures [nan] NaN1(x, d, ret1)
+//@   ensures [set] ret0 <==> old(isnan(x) || x.Form == Infinite || iszero(x) || (x.Negative && mod(factor, 2) == 0))
+//@   ensures [neg] old(!isnan(x) && x.Negative && !iszero(x) && mod(factor, 2) == 0) ==> (d.Form == NaN && ret1 == InvalidOperation)
+//@   ensures [infneg] old(x.Form == Infinite && x.Negative) ==> (d.Form == NaN && ret1 == InvalidOperation)
+//@   ensures [inf] old(x.Form == Infinite && !x.Negative) ==> (d.Form == Infinite && !d.Negative && ret1 == 0)
+//@   ensures [zero] old(iszero(x)) ==> (d.Form == Finite && val(d.Coeff) == 0 && d.Negative == old(x.Negative) && ret1 == 0)
+//@   ensures [unchanged] !ret0 ==> (unchanged(d) && ret1 == 0 && ret2 == nil)
+
+//@ func (*Context).logSpecials
+//@   props C03 C04 C06 C08
+//@   requires writable(d) && inv(x)
+//@   assigns d
+//@   ensures [invkeep] old(inv(d)) ==> inv(d)
+//@   ensures [closed] closed(ret1)
+//@   ensures [trap] ret2 != nil <==> trapped(c, ret1)
+//@   ensures [nan] NaN1(x, d, ret1)
+//@   ensures [neg] old(!isnan(x) && x.Negative && !iszero(x)) ==> (ret0 && d.Form == NaN && ret1 == InvalidOperation)
+//@   ensures [inf] old(x.Form == Infinite && !x.Negative) ==> (ret0 && d.Form == Infinite && !d.Negative && ret1 == 0)
+//@   ensures [zero] old(iszero(x)) ==> (ret0 && d.Form == Infinite && d.Negative && ret1 == 0)
+//@   ensures [unchanged] !ret0 ==> (unchanged(d) && ret1 == 0 && ret2 == nil && old(x.Form == Finite && !x.Negative && val(x.Coeff) > 0))
+//@   ensures [inv] ret0 ==> inv(d)
+
+//@ func (*Context).Sqrt
+//@   props C03 C04 C05 C06 C07 C08 C18
+//@   exported
+//@   requires writable(d) && inv(x) && c.Precision <= 2000000000
+//@   assigns d
+//@   ensures [invkeep] old(inv(d)) ==> inv(d)
+//@   ensures [closed] closed(ret0)
+//@   ensures [trap] trapped(c, ret0) ==> ret1 != nil
+//@   loop 1 invariant closed(ed.Flags) && ed.Ctx == nc && nc != c && writable(nc) && inv(approx) && inv(tmp) && inv(f) && 3 <= p && p <= workp + 5 && workp <= 2000000010
+//@   loop 1 decreases workp + 5 - p
+//@   ensures [edclean] ret1 == nil ==> edclean(ed)
+//@   ensures [nan] NaN1(x, d, ret0)
+//@   ensures [neg] old(!isnan(x) && x.Negative && !iszero(x)) ==> (d.Form == NaN && ret0 == InvalidOperation)
+//@   ensures [inf] old(x.Form == Infinite && !x.Negative) ==> (d.Form == Infinite && !d.Negative && ret0 == 0)
+//@   ensures [fits] wfctx(c) && ret1 == nil && !hassys(ret0) ==> fits(c, d)
+
+//@ func (*Context).integerPower
+//@   props C03 C04 C06
+//@   requires writable(d) && inv(x) && d != x && x.Coeff != y && d.Coeff != y
+//@   assigns d
+//@   loop 1 invariant closed(ed.Flags) && ed.Ctx == c && inv(n) && inv(d) && val(b) >= 0
+//@   loop 1 decreases val(b)
+//@   ensures [closed] closed(ret0)
+//@   ensures [inv] inv(d)
